@@ -15,16 +15,27 @@ R2 wrapper shape of `recoverable`: the decorator returns the nested wrapper; the
    `UnrecoverableWorkflowException` leave without `recover`; every other `Exception` reaches
    `await failure_manager.recover(job, step, e)` (job/step picked by isinstance on Job/Step, e the
    caught exception); normal completion never calls recover; a failure of recover propagates.
-R3 assembly order in `_recover` (CFG dominance): build_graph < create_graph_mapper < lock
-   acquisition < _synchronize_workflows < _populate_workflow < _inject_tokens < restore of every
-   step (loop over `<wf>.steps`, no skip/break) < save < executor.run; all stages work on the one
-   workflow object obtained from `WorkflowBuilder.load_workflow`.
+R3 assembly order in `_recover` (CFG dominance, helpers extracted from `_recover` are followed):
+   build_graph < create_graph_mapper < lock acquisition < _synchronize_workflows <
+   _populate_workflow < _inject_tokens < restore of every step (loop / gather over `<wf>.steps`,
+   no skip/break) < save < executor.run; all stages work on the one workflow object obtained from
+   `WorkflowBuilder.load_workflow`; the provenance search starts from the failed job's inputs, its
+   job token and the connector tokens (generators filtered by port class); `_recover` raises only
+   under an emptiness test; the retry delay is slept only when configured.
 R4 stateful steps restore their state: ScatterStep / LoopCombinatorStep / DefaultTransformer define a
    non-trivial `restore` (LoopCombinatorStep forwards to `combinator.restore`, LoopCombinator
    rebuilds `iteration_map`; ScatterStep installs a FilterTokenPort); `restore` is given the
    *unavailable* tokens while `_inject_tokens` injects the *available* ones; `_inject_tokens`
    installs a PROPAGATE rule towards the failed step's original output port and a TERMINATE rule on
-   the recovery port, both keyed by the failed job's tag and always installed together.
+   the recovery port, both keyed by the failed job's tag, always together and exactly for the
+   inter-workflow ports bound to the failed step's outputs (facts of the dominating tests); every
+   other inter-workflow port gets a PROPAGATE|TERMINATE rule on itself keyed by all its tags; the
+   duplicate-tag guard raises only on duplicates.
+R5 (added) population of the recovery workflow: `_populate_workflow` loads every selected step id and,
+   unconditionally, the failed step itself, and re-creates every plain port (and only those) as an
+   InterWorkflowPort / InterWorkflowJobPort (job ports) of the same name.
+R6 (added) hygiene of the plumbing functions: every coroutine-producing call is awaited or scheduled;
+   every name / `self.<attr>` they use is bound somewhere (whole-repo validated: 0 hits on today's tree).
 
 Not armed (see DESIGN section 7): the sort of injected tokens by tag *string* in `_inject_tokens`.
 """
@@ -35,7 +46,7 @@ import ast
 
 from ..cfg import ALL, NORMAL
 from ..dataflow import defs_of, origins
-from ..model import ancestors, dotted, parent, unparse, walk_no_nested
+from ..model import ancestors, parent, unparse
 from ..selftest import V
 from ._util_D import (
     FM,
@@ -46,14 +57,26 @@ from ._util_D import (
     STEP_FILE,
     UTILS,
     bind_args,
+    callers_of,
+    check_awaited,
+    check_defined,
     exc_ancestors,
+    expr_facts,
     first_handler,
+    funcs_mentioning,
+    has_fact,
+    implies_empty,
     implied,
     is_awaited,
+    lock_sites,
+    membership_fact,
     mentions,
     param_of_type,
+    path_facts,
+    rcall,
+    region,
     resolves_to,
-    same_value,
+    stage_calls,
     strip,
 )
 
@@ -110,6 +133,16 @@ def _inside_recoverable(prog, f) -> bool:
 def r1(ctx):
     p = ctx.prog
     p.func(DECORATOR)  # anchor
+    # nobody bypasses the wrapper
+    bypassed = set()
+    for f in funcs_mentioning(p, "__wrapped__"):
+        for n in f.body_nodes():
+            if isinstance(n, ast.Attribute) and n.attr == "__wrapped__" and isinstance(n.value, ast.Attribute) and any(
+                n.value.attr == meth for _, meth, _ in PHASES
+            ):
+                bypassed.add(n.value.attr)
+                ctx.ob("R1", "phase invoked through __wrapped__", False, func=f, node=n, instance=f"bypass:{n.value.attr}",
+                       message=f"{f.qualname} bypasses the recoverable wrapper via `{unparse(n)}`")
     for cq, meth, (wcq, wmeth) in PHASES:
         p.cls(cq)
         defs = p.overrides(cq, meth)
@@ -129,8 +162,8 @@ def r1(ctx):
                 f"(decorated={_is_recoverable(p, f)}, async={f.is_async}, job parameter={job_param}, step={bool(has_step)})",
             )
             # call sites of this definition
-            sites = {id(c): (g, c) for g, c in p.callers(f.qualname)}
-            if f is defs[0]:
+            sites = {id(c): (g, c) for g, c in callers_of(p, [f.qualname])}
+            if f is defs[0] and meth not in bypassed:
                 ctx.require(bool(sites), f"C16.R1: no call site of {f.qualname} found")
             for g, c in sites.values():
                 b = bind_args(f.node, c) or {}
@@ -149,10 +182,7 @@ def r1(ctx):
         # phase work only inside a decorated function
         work = p.overrides(wcq, wmeth)
         ctx.require(bool(work), f"C16.R1: {wcq}.{wmeth} not found")
-        wsites = {}
-        for w in work:
-            for g, c in p.callers(w.qualname):
-                wsites[id(c)] = (g, c)
+        wsites = {id(c): (g, c) for g, c in callers_of(p, [w.qualname for w in work])}
         ctx.require(bool(wsites), f"C16.R1: no call of {wcq}.{wmeth} found")
         for g, c in wsites.values():
             ctx.ob(
@@ -165,19 +195,6 @@ def r1(ctx):
                 message=f"{g.qualname} calls `{unparse(c.func)}` outside any @recoverable function: a failure of this "
                 f"phase is not routed to the failure manager",
             )
-    # nobody bypasses the wrapper
-    for m in p.modules.values():
-        if "__wrapped__" not in m.source:
-            continue
-        for f in p.all_funcs():
-            if f.module is not m:
-                continue
-            for n in f.body_nodes():
-                if isinstance(n, ast.Attribute) and n.attr == "__wrapped__" and isinstance(n.value, ast.Attribute) and any(
-                    n.value.attr == meth for _, meth, _ in PHASES
-                ):
-                    ctx.ob("R1", "phase invoked through __wrapped__", False, func=f, node=n, instance=f"bypass:{n.value.attr}",
-                           message=f"{f.qualname} bypasses the recoverable wrapper via `{unparse(n)}`")
 
 
 # --------------------------------------------------------------------------- R2
@@ -201,13 +218,19 @@ def _wrapper(ctx):
             wrappers.append(p.functions[q])
         else:
             bad = r
+    if not wrappers:
+        # still analyse the nested function that invokes the wrapped one
+        wrappers = [
+            f for q, f in p.functions.items()
+            if q.startswith(dec.qualname + ".<locals>.") and f.outer is dec
+            and any(isinstance(c.func, ast.Name) and c.func.id == fparam for c in f.calls())
+        ]
     return dec, fparam, wrappers, bad
 
 
 def r2(ctx):
-    p = ctx.prog
     dec, fparam, wrappers, bad = _wrapper(ctx)
-    ctx.ob("R2", "`recoverable` returns its nested wrapper on every return", bad is None and bool(wrappers), func=dec,
+    ctx.ob("R2", "`recoverable` returns its nested wrapper on every return", bad is None, func=dec,
            node=bad or dec.node, instance="returns-wrapper",
            message=f"`recoverable` returns `{unparse(bad.value) if bad is not None and bad.value is not None else None}`: "
            "decorated phases run without failure handling")
@@ -232,6 +255,18 @@ def _check_wrapper(ctx, w, fparam):
     )
     ctx.ob("R2", "wrapper awaits func(*args, **kwargs)", is_awaited(call) and forwards, func=w, node=call, instance="forward",
            message=f"the wrapped phase is invoked as `{unparse(parent(call) if is_awaited(call) else call)}`")
+    # the job / step look-ups: the fallback search and the ValueError only when nothing was found
+    for n in g.nodes.values():
+        if n.kind == "raise_stmt" and not any(isinstance(a, ast.ExceptHandler) for a in ancestors(n.ast)):
+            if n.id in g.reach(g.node_containing(call), kinds=ALL):
+                continue  # raised after the wrapped call: not a look-up guard
+            facts = path_facts(g, n.id)
+            nones = [v for e, v in facts if isinstance(e, ast.Compare) and len(e.ops) == 1 and isinstance(e.ops[0], (ast.Is, ast.IsNot))
+                     and isinstance(e.comparators[0], ast.Constant) and e.comparators[0].value is None
+                     for v in [v if isinstance(e.ops[0], ast.Is) else (not v)]]
+            ctx.ob("R2", "the wrapper rejects a call only when no Job / Step argument was found", bool(nones) and all(nones), func=w, node=n.ast,
+                   instance=f"lookup-guard:{unparse(n.ast)[:50]}",
+                   message="the Job/Step look-up of the wrapper raises (or falls back) although an argument was found: every decorated phase fails")
     tr = None
     child = call
     for a in ancestors(call):
@@ -250,10 +285,8 @@ def _check_wrapper(ctx, w, fparam):
     for name in NO_RECOVER:
         h = first_handler(p, tr, name)
         if h is None:
-            ok, msg = True, ""
-            if "Exception" in exc_ancestors(p, name):
-                ok, msg = True, ""  # no handler at all: RECOVER rows below report it
-            ctx.ob("R2", f"{name} propagates (no handler)", ok, func=w, node=tr, instance=f"norecover:{name}", trivial=True)
+            exc_ancestors(p, name)  # (validates the class name) - no handler at all: it propagates; the RECOVER rows below report a missing catch-all
+            ctx.ob("R2", f"{name} propagates (no handler)", True, func=w, node=tr, instance=f"norecover:{name}", trivial=True)
             continue
         hid = g.ids_of(h)
         reg = g.reach(hid, kinds=NORMAL, include_src=True)
@@ -330,36 +363,78 @@ def _check_wrapper(ctx, w, fparam):
 # --------------------------------------------------------------------------- R3
 
 
-def _stage_nodes(ctx, f):
-    """[(label, [cfg ids], [calls])] in required order."""
-    p = ctx.prog
+STAGES = [
+    ("build_graph", [f"{UTILS}.ProvenanceGraph.build_graph"], False),
+    ("create_graph_mapper", [f"{UTILS}.create_graph_mapper"], False),
+    ("lock acquisition", None, False),
+    ("_synchronize_workflows", [f"{RFM}._synchronize_workflows"], False),
+    ("_populate_workflow", [f"{FM}._populate_workflow"], False),
+    ("_inject_tokens", [f"{FM}._inject_tokens"], False),
+    ("restore", [f"{STEP_CLS}.restore"], True),
+    ("save", [f"{CORE_WF}.Workflow.save"], False),
+    ("executor.run", ["streamflow.workflow.executor.StreamFlowExecutor.run"], False),
+]
+
+
+def _stage_sites(p, f, spec, depth=2):
+    label, names, fallback = spec
+    memo = getattr(p, "_c16_sites", None)
+    if memo is None:
+        memo = p._c16_sites = {}
+    key = (f.qualname, label, depth)
+    if key not in memo:
+        memo[key] = lock_sites(p, f, depth) if names is None else stage_calls(p, f, names, attr_fallback=fallback, depth=depth)
+    return memo[key]
+
+
+def _ids(g, sites):
+    return sorted({i for c, _ in sites for i in g.node_containing(c)})
+
+
+def _pair_order(p, f, sa, sb, depth=2):
+    """None when stage `sa` precedes stage `sb` on every path of `f` (helpers followed), else
+    (message, witness, ast node)."""
     g = f.cfg
+    A, B = _stage_sites(p, f, sa, depth), _stage_sites(p, f, sb, depth)
+    if not A or not B:
+        return None
+    shared = [(c, h) for c, h in A if h is not None and any(c is c2 for c2, _ in B)]
+    for c, h in shared:
+        r = _pair_order(p, h, sa, sb, depth - 1) if depth > 0 else None
+        if r is not None:
+            return (f"inside {h.name}: {r[0]}", r[1], c)
+    B2 = [(c, h) for c, h in B if not any(c is c2 for c2, _ in shared)]
+    ia, ib = _ids(g, A), _ids(g, B2)
+    if not ib:
+        return None
+
+    def loops_of(sites):
+        return {id(a): a for c, _ in sites for a in ancestors(c) if isinstance(a, (ast.For, ast.AsyncFor, ast.While))}
+
+    # a stage performed in a loop (possibly zero iterations) is represented by the loop head
+    lb_ = loops_of(B2)
+    heads = [i for k, lp in loops_of(A).items() if k not in lb_ for i in g.ids_of(lp.test if isinstance(lp, ast.While) else lp)]
+    dom = list(ia) + heads
+    bad = [b for b in ib if not g.dominates(dom, b)]
+    if bad:
+        return (f"`{sb[0]}` can run before / without `{sa[0]}`", g.describe(g.path(g.entry, bad[:1], avoid=dom) or []), g.nodes[bad[0]].ast)
+    after_b = g.reach(ib)
+    again = [a for a in ia if a in after_b and a not in ib]
+    if again:
+        return (f"`{sa[0]}` runs (again) after `{sb[0]}`", g.describe(g.path(ib[0], again[:1]) or g.path(ib[-1], again[:1]) or []), g.nodes[again[0]].ast)
+    return None
+
+
+def _direct_sites(p, f, spec, depth=2, binding=None):
+    """Direct call sites of a stage, descending into helpers: [(function containing the call, call, binding)]
+    where binding maps the helper's parameter names to the caller's argument expressions (one level)."""
     out = []
-
-    def by_callee(label, names, fallback=False):
-        cs = [c for c in f.calls() if resolves_to(p, f, c, names, attr_fallback=fallback)]
-        out.append((label, sorted({i for c in cs for i in g.node_containing(c)}), cs))
-
-    by_callee("build_graph", [f"{UTILS}.ProvenanceGraph.build_graph"])
-    by_callee("create_graph_mapper", [f"{UTILS}.create_graph_mapper"])
-    lock_ids, lock_calls = set(), []
-    for n in g.nodes.values():
-        for x in n.walk():
-            if isinstance(x, ast.Attribute) and x.attr == "lock" and n.kind in ("stmt", "with_enter"):
-                par = parent(x)
-                acquiring = n.kind == "with_enter" or (
-                    isinstance(par, ast.Call) and isinstance(par.func, ast.Attribute) and par.func.attr == "enter_async_context"
-                ) or (isinstance(par, ast.Attribute) and par.attr == "acquire")
-                if acquiring:
-                    lock_ids.add(n.id)
-                    lock_calls.append(par if isinstance(par, ast.Call) else x)
-    out.append(("lock acquisition", sorted(lock_ids), lock_calls))
-    by_callee("_synchronize_workflows", [f"{RFM}._synchronize_workflows"])
-    by_callee("_populate_workflow", [f"{FM}._populate_workflow"])
-    by_callee("_inject_tokens", [f"{FM}._inject_tokens"])
-    by_callee("restore", [f"{STEP_CLS}.restore"], fallback=True)
-    by_callee("save", [f"{CORE_WF}.Workflow.save"])
-    by_callee("executor.run", ["streamflow.workflow.executor.StreamFlowExecutor.run"])
+    for c, h in _stage_sites(p, f, spec, depth):
+        if h is None:
+            out.append((f, c, binding))
+        elif depth > 0:
+            b = bind_args(h.node, c, bound=(h.cls is not None)) or {}
+            out += _direct_sites(p, h, spec, depth - 1, binding=(f, b) if binding is None else None)
     return out
 
 
@@ -367,40 +442,103 @@ def r3(ctx):
     p = ctx.prog
     f = p.func(f"{RFM}._recover")
     g = f.cfg
-    stages = _stage_nodes(ctx, f)
-    for label, ids, calls in stages:
-        aw = all(is_awaited(c) for c in calls if isinstance(c, ast.Call))
-        ctx.ob("R3", f"_recover performs `{label}` (awaited)", bool(ids) and aw, func=f, node=(calls[0] if calls else f.node),
+    sites = {spec[0]: _stage_sites(p, f, spec) for spec in STAGES}
+    for spec in STAGES:
+        label = spec[0]
+        ss = sites[label]
+        aw = all(is_awaited(c) or any(isinstance(a, ast.Await) for a in ancestors(c)) for c, _ in ss if isinstance(c, ast.Call))
+        ctx.ob("R3", f"_recover performs `{label}` (awaited)", bool(ss) and aw, func=f, node=(ss[0][0] if ss else f.node),
                instance=f"stage:{label}", message=f"_recover has no (awaited) `{label}` stage")
-    present = [(l, i, cs) for l, i, cs in stages if i]
-
-    def loops_of(calls):
-        return {id(a): a for c in calls for a in ancestors(c) if isinstance(a, (ast.For, ast.AsyncFor, ast.While))}
-
-    for (la, ia, ca), (lb, ib, cb) in zip(present, present[1:]):
-        # a stage performed in a loop (possibly zero iterations) is represented by the loop head
-        heads = [i for k, lp in loops_of(ca).items() if k not in loops_of(cb) for i in g.ids_of(lp.test if isinstance(lp, ast.While) else lp)]
-        dom = list(ia) + heads
-        bad = [b for b in ib if not g.dominates(dom, b)]
-        wit = g.describe(g.path(g.entry, bad[:1], avoid=dom) or []) if bad else []
-        back = None
-        if not bad:
-            after_b = g.reach(ib)
-            again = [a for a in ia if a in after_b]
-            if again:
-                bad = again
-                back = g.path(ib[0], again[:1]) or g.path(ib[-1], again[:1])
-                wit = g.describe(back or [])
-        ctx.ob("R3", f"`{la}` precedes `{lb}` on every path", not bad, func=f, node=g.nodes[(bad or ib)[0]].ast,
-               instance=f"order:{la}<{lb}",
-               message=(f"`{la}` runs (again) after `{lb}`" if back is not None else f"`{lb}` can run before / without `{la}`"), witness=wit)
+    present = [spec for spec in STAGES if sites[spec[0]]]
+    for sa, sb in zip(present, present[1:]):
+        r = _pair_order(p, f, sa, sb)
+        ctx.ob("R3", f"`{sa[0]}` precedes `{sb[0]}` on every path", r is None, func=f, node=(r[2] if r else sites[sb[0]][0][0]),
+               instance=f"order:{sa[0]}<{sb[0]}", message=(r[0] if r else ""), witness=(r[1] if r else []))
+    spec_of = {s[0]: s for s in STAGES}
+    # the provenance search starts from everything the failed job consumed
+    fjob = param_of_type(p, f, JOB)
+    ctx.require(fjob is not None, "C16.R3: _recover has no Job parameter")
+    bg = p.func(f"{UTILS}.ProvenanceGraph.build_graph")
+    for h, c, bnd in _direct_sites(p, f, spec_of["build_graph"]):
+        b = bind_args(bg.node, c) or {}
+        e = b.get("inputs")
+        who = fjob if h is f else None
+        has_inputs = e is not None and who is not None and mentions(
+            h, e, lambda n: isinstance(n, ast.Attribute) and n.attr == "inputs" and isinstance(n.value, ast.Name) and n.value.id == who)
+        has_job = e is not None and who is not None and mentions(
+            h, e, lambda n: isinstance(n, ast.Call) and resolves_to(p, h, n, ["streamflow.workflow.utils.get_job_token"], attr_fallback=False)
+            and any(isinstance(x, ast.Attribute) and x.attr == "name" and isinstance(x.value, ast.Name) and x.value.id == who for a in n.args for x in [a, *ast.walk(a)]))
+        if who is None:
+            ctx.require(False, "C16.R3: build_graph is called from a helper: cannot identify the failed job's inputs")
+        # the extra tokens come from connector ports / job ports only
+        filt_ok = True
+        for o in origins(h, e) if e is not None else []:
+            for gen in [x for x in ast.walk(o) if isinstance(x, (ast.GeneratorExp, ast.ListComp))]:
+                elt = strip(gen.elt)
+                want = None
+                if isinstance(elt, ast.Subscript) and isinstance(elt.value, ast.Attribute) and elt.value.attr == "token_list":
+                    want = "streamflow.workflow.port.ConnectorPort"
+                elif isinstance(elt, ast.Call) and resolves_to(p, h, elt, ["streamflow.workflow.utils.get_job_token"], attr_fallback=False):
+                    want = "streamflow.workflow.port.JobPort"
+                if want is not None:
+                    filt_ok = filt_ok and any(
+                        v is True and isinstance(x, ast.Call) and isinstance(x.func, ast.Name) and x.func.id == "isinstance" and len(x.args) == 2
+                        and p.resolve_expr(h.module, x.args[1]) == want for cond in gen.generators[0].ifs for x, v in implied(cond, True))
+        has_inputs = has_inputs and filt_ok
+        ctx.ob("R3", "build_graph starts from the failed job's input tokens and its job token", has_inputs and has_job, func=h, node=c, instance="build_graph:inputs",
+               message=f"the provenance search does not start from failed_job.inputs (found={has_inputs}) and the job token (found={has_job}): lost inputs are not regenerated")
+    # _recover gives up only when there is nothing to recover
+    for n in g.nodes.values():
+        if n.kind != "raise_stmt":
+            continue
+        facts = path_facts(g, n.id)
+        empty = False
+        for e, v in facts:
+            if isinstance(e, ast.Call) and isinstance(e.func, ast.Attribute) and e.func.attr == "empty" and v is True:
+                empty = True
+        for t_ in g.nodes.values():
+            if t_.kind == "test" and g.dominates(t_.id, n.id):
+                for k, tr in (("t", True), ("f", False)):
+                    if n.id in region(g, t_.id, k) and n.id not in region(g, t_.id, "f" if k == "t" else "t"):
+                        if implies_empty(p, f, t_.ast, tr, lambda x: isinstance(x, ast.Attribute) and x.attr in ("steps", "dag_tokens")):
+                            empty = True
+        ctx.ob("R3", "_recover aborts only when the token graph / the recovery workflow is empty", empty, func=f, node=n.ast,
+               instance=f"abort-guard:{unparse(n.ast.exc.func) if isinstance(n.ast.exc, ast.Call) else 'raise'}:{sum(1 for m in g.nodes.values() if m.kind == 'raise_stmt' and m.id < n.id)}",
+               message=f"`{unparse(n.ast)[:80]}` is reached for a non-empty graph / workflow: every recovery is aborted")
+    # the optional retry delay is awaited only when one is configured (the default is None)
+    dh = p.func(f"{RFM}._do_handle_failure")
+    gd = dh.cfg
+    for c in dh.calls():
+        if rcall(p, dh, c) == ["asyncio.sleep"] and c.args and mentions(dh, c.args[0], lambda n: isinstance(n, ast.Attribute) and n.attr == "retry_delay", depth=1):
+            facts = [x for i in gd.node_containing(c) for x in path_facts(gd, i)]
+            guarded = False
+            for e, v in facts:
+                if isinstance(e, ast.Compare) and len(e.ops) == 1 and isinstance(e.comparators[0], ast.Constant) and e.comparators[0].value is None and isinstance(
+                        e.left, ast.Attribute) and e.left.attr == "retry_delay":
+                    guarded = guarded or (isinstance(e.ops[0], ast.IsNot) and v) or (isinstance(e.ops[0], ast.Is) and not v)
+                if isinstance(e, ast.Attribute) and e.attr == "retry_delay" and v is True:
+                    guarded = True
+            ctx.ob("R3", "the retry delay is awaited only when retry_delay is configured", guarded and is_awaited(c), func=dh, node=c, instance="delay-guard",
+                   message="`asyncio.sleep(self.retry_delay)` is reached with retry_delay None (the default): every failure handling raises TypeError")
     # restore covers every step of the recovery workflow
-    restores = [c for l, _, cs in stages if l == "restore" for c in cs]
-    wf_exprs = []
-    for c in restores:
+    wf_exprs = []  # (label, function, expr, binding)
+    for h, c, bnd in _direct_sites(p, f, spec_of["restore"]):
+        gh = h.cfg
         loop = next((a for a in ancestors(c) if isinstance(a, (ast.For, ast.AsyncFor))), None)
+        comp = next((a for a in ancestors(c) if isinstance(a, (ast.GeneratorExp, ast.ListComp))), None)
         ok, msg = True, ""
-        if loop is None:
+        if comp is not None and (loop is None or any(a is loop for a in ancestors(comp))):
+            # `await asyncio.gather(*(step.restore(..) for step in wf.steps.values()))`
+            gen = comp.generators[0]
+            base = next((x.value for x in [strip(gen.iter), *ast.walk(strip(gen.iter))] if isinstance(x, ast.Attribute) and x.attr == "steps"), None)
+            recv = c.func.value if isinstance(c.func, ast.Attribute) else None
+            tn = {n.id for n in ast.walk(gen.target) if isinstance(n, ast.Name)}
+            awaited_all = any(isinstance(a, ast.Await) for a in ancestors(comp))
+            if base is None or len(comp.generators) != 1 or gen.ifs or not (isinstance(recv, ast.Name) and recv.id in tn) or not awaited_all:
+                ok, msg = False, f"`{unparse(comp)[:80]}` does not await restore for every step of the recovery workflow"
+            else:
+                wf_exprs.append(("restore loop", h, base, bnd))
+        elif loop is None:
             ok, msg = False, "restore is not called in a loop over the steps"
         else:
             it = strip(loop.iter)
@@ -415,52 +553,54 @@ def r3(ctx):
             elif not (isinstance(recv, ast.Name) and recv.id in tnames):
                 ok, msg = False, f"restore is called on `{unparse(recv)}`, not on the loop variable"
             else:
-                wf_exprs.append(("restore loop", base))
-                iid = g.ids_of(loop)
-                rid = g.node_containing(c)
-                body = [b for i in iid for b in [x for x, k in g.succ[i] if k == "t"]]
-                skip = next((pth for b in body if b not in rid for pth in [g.path(b, iid, avoid=rid)] if pth), None)
-                after = [x for i in iid for x, k in g.succ[i] if k == "f"]
-                brk = next((pth for b in body for pth in [g.path(b, after, avoid=iid)] if pth and after), None)
+                wf_exprs.append(("restore loop", h, base, bnd))
+                iid = gh.ids_of(loop)
+                rid = gh.node_containing(c)
+                body = [b for i in iid for b in [x for x, k in gh.succ[i] if k == "t"]]
+                skip = next((pth for b in body if b not in rid for pth in [gh.path(b, iid, avoid=rid)] if pth), None)
+                after = [x for i in iid for x, k in gh.succ[i] if k == "f"]
+                brk = next((pth for b in body for pth in [gh.path(b, after, avoid=iid)] if pth and after), None)
                 if skip:
-                    ok, msg = False, "an iteration can skip restore: " + " -> ".join(g.describe(skip)[:4])
+                    ok, msg = False, "an iteration can skip restore: " + " -> ".join(gh.describe(skip)[:4])
                 elif brk:
-                    ok, msg = False, "the loop can be left before every step is restored: " + " -> ".join(g.describe(brk)[:4])
-        ctx.ob("R3", "restore is awaited for every step of the recovery workflow", ok, func=f, node=c, instance="restore:coverage",
+                    ok, msg = False, "the loop can be left before every step is restored: " + " -> ".join(gh.describe(brk)[:4])
+        ctx.ob("R3", "restore is awaited for every step of the recovery workflow", ok, func=h, node=c, instance="restore:coverage",
                message=msg)
+
     # one workflow object through all stages
     def arg_of(label, callee_q, pname, bound):
-        for l, _, cs in stages:
-            if l == label:
-                for c in cs:
-                    b = bind_args(p.func(callee_q).node, c, bound=bound) or {}
-                    if pname in b:
-                        wf_exprs.append((label, b[pname]))
+        for h, c, bnd in _direct_sites(p, f, spec_of[label]):
+            b = bind_args(p.func(callee_q).node, c, bound=bound) or {}
+            if pname in b:
+                wf_exprs.append((label, h, b[pname], bnd))
 
     arg_of("_synchronize_workflows", f"{RFM}._synchronize_workflows", "workflow", True)
     arg_of("_populate_workflow", f"{FM}._populate_workflow", "workflow", False)
     arg_of("_inject_tokens", f"{FM}._inject_tokens", "workflow", False)
-    for l, _, cs in stages:
-        if l == "save":
-            wf_exprs += [("save", c.func.value) for c in cs if isinstance(c.func, ast.Attribute)]
-        if l == "executor.run":
-            for c in cs:
-                for o in origins(f, c.func.value) if isinstance(c.func, ast.Attribute) else []:
-                    o = strip(o)
-                    if isinstance(o, ast.Call) and o.args:
-                        wf_exprs.append(("executor", o.args[0]))
-                    elif isinstance(o, ast.Call) and o.keywords:
-                        wf_exprs.append(("executor", o.keywords[0].value))
+    for h, c, bnd in _direct_sites(p, f, spec_of["save"]):
+        if isinstance(c.func, ast.Attribute):
+            wf_exprs.append(("save", h, c.func.value, bnd))
+    for h, c, bnd in _direct_sites(p, f, spec_of["executor.run"]):
+        for o in origins(h, c.func.value) if isinstance(c.func, ast.Attribute) else []:
+            o = strip(o)
+            if isinstance(o, ast.Call) and o.args:
+                wf_exprs.append(("executor", h, o.args[0], bnd))
+            elif isinstance(o, ast.Call) and o.keywords:
+                wf_exprs.append(("executor", h, o.keywords[0].value, bnd))
     ctx.require(len(wf_exprs) >= 4, "C16.R3: could not identify the workflow operand of the assembly stages")
 
-    def loaded(e):
-        return any(
-            isinstance(strip(o), ast.Call) and resolves_to(p, f, strip(o), ["streamflow.persistence.loading_context.WorkflowBuilder.load_workflow"])
-            for o in origins(f, e)
-        )
+    def loaded(h, e, bnd, depth=2):
+        for o in origins(h, e):
+            o = strip(o)
+            if isinstance(o, ast.Call) and resolves_to(p, h, o, ["streamflow.persistence.loading_context.WorkflowBuilder.load_workflow"]):
+                return True
+            if isinstance(o, ast.Name) and bnd is not None and o.id in bnd[1] and depth > 0:
+                if loaded(bnd[0], bnd[1][o.id], None, depth - 1):
+                    return True
+        return False
 
-    for label, e in wf_exprs:
-        ctx.ob("R3", f"`{label}` operates on the workflow loaded by WorkflowBuilder.load_workflow", loaded(e), func=f, node=e,
+    for label, h, e, bnd in wf_exprs:
+        ctx.ob("R3", f"`{label}` operates on the workflow loaded by WorkflowBuilder.load_workflow", loaded(h, e, bnd), func=h, node=e,
                instance=f"same-workflow:{label}",
                message=f"`{label}` uses `{unparse(e)}`, which is not the freshly loaded recovery workflow")
 
@@ -508,7 +648,10 @@ def r4(ctx):
                message=f"{c.name} keeps run-time state but inherits the no-op restore: a recovered run resumes from a wrong state")
     # LoopCombinatorStep.restore forwards to the combinator
     f = p.func(f"{STEP}.LoopCombinatorStep.restore") if "restore" in p.cls(f"{STEP}.LoopCombinatorStep").methods else None
-    if f is not None:
+    if f is None:
+        ctx.ob("R4", "LoopCombinatorStep.restore awaits combinator.restore on every normal path", False, qualname=f"{STEP}.LoopCombinatorStep",
+               instance="loop:forward", message="LoopCombinatorStep has no restore of its own")
+    else:
         g = f.cfg
         cs = [c for c in f.calls() if isinstance(c.func, ast.Attribute) and c.func.attr == "restore"
               and isinstance(c.func.value, ast.Attribute) and c.func.value.attr == "combinator"]
@@ -529,7 +672,10 @@ def r4(ctx):
            message="LoopCombinator.restore does not write iteration_map: resumed iterations are re-numbered from 0")
     # ScatterStep.restore installs a filtering port
     sc = p.cls(f"{STEP}.ScatterStep").methods.get("restore")
-    if sc is not None:
+    if sc is None:
+        ctx.ob("R4", "ScatterStep.restore replaces its output port by a FilterTokenPort with a filter", False, qualname=f"{STEP}.ScatterStep",
+               instance="scatter:filter", message="ScatterStep has no restore of its own")
+    else:
         ok = False
         for n in sc.body_nodes():
             if isinstance(n, ast.Assign) and any(isinstance(t, ast.Subscript) and unparse(t.value).endswith("workflow.ports") for t in n.targets):
@@ -553,14 +699,23 @@ def r4(ctx):
                     pol += _availability_polarity(f, o)
             found = True
             ok = bool(pol) and all(v is False for _, v in pol)
+            for o in origins(f, arg) if arg is not None else []:
+                for sub in [x for x in ast.walk(o) if isinstance(x, ast.Subscript) and isinstance(x.value, ast.Attribute) and x.value.attr == "port_tokens"]:
+                    known = membership_fact(expr_facts(sub), lambda e: unparse(e) == unparse(sub.slice),
+                                            lambda e: mentions(f, e, lambda k: isinstance(k, ast.Attribute) and k.attr == "port_tokens", depth=0))
+                    ok = ok and known is True  # an unmapped port has no entry: `port_tokens[name]` would raise KeyError
             ctx.ob("R4", "restore receives exactly the unavailable output tokens", ok, func=f, node=c, instance="restore:unavailable",
                    message="the on_tokens argument of restore is not filtered by `not token_availability[...]`: "
                    + ("no availability filter" if not pol else "filter keeps available tokens"))
-    ctx.require(found, "C16.R4: call of Step.restore not found in _recover")
+    if not found:
+        ctx.ob("R4", "restore receives exactly the unavailable output tokens", False, func=f, node=f.node, instance="restore:unavailable",
+               message="_recover never calls Step.restore")
     f = p.func(f"{FM}._inject_tokens")
     g = f.cfg
     puts = [c for c in f.calls() if isinstance(c.func, ast.Attribute) and c.func.attr == "put" and resolves_to(p, f, c, [f"{CORE_WF}.Port.put"])]
-    ctx.require(bool(puts), "C16.R4: _inject_tokens no longer puts tokens")
+    if not puts:
+        ctx.ob("R4", "_inject_tokens injects exactly the available tokens", False, func=f, node=f.node, instance="inject:available",
+               message="_inject_tokens never puts a token into a port of the recovery workflow")
     for c in puts:
         loop = next((a for a in ancestors(c) if isinstance(a, ast.For)), None)
         pol = []
@@ -621,25 +776,195 @@ def r4(ctx):
     ctx.ob("R4", "_inject_tokens terminates the recovery port once the failed job's tag is produced", okt, func=f,
            node=(term[0][0] if term else f.node), instance="boundary:terminate",
            message="no TERMINATE rule keyed by the failed job's tag on the recovery workflow's own port: the recovery workflow re-runs beyond the failed job")
+    together = False
     if prop and term:
         a = g.node_containing(prop[0][0])
         b_ = g.node_containing(term[0][0])
         together = bool(a and b_) and (
             (g.dominates(a, b_[0]) and g.escape(a[0], b_) is None) or (g.dominates(b_, a[0]) and g.escape(b_[0], a) is None))
-        ctx.ob("R4", "PROPAGATE and TERMINATE rules are always installed together", together, func=f, node=prop[0][0],
-               instance="boundary:together", message="one of the two boundary rules can be installed without the other")
+    ctx.ob("R4", "PROPAGATE and TERMINATE rules are always installed together", together, func=f, node=(prop or term or [(f.node,)])[0][0],
+           instance="boundary:together", message="one of the two boundary rules is missing or can be installed without the other")
+
+    # which ports get which rule: facts established by the dominating tests
+    def is_iw_test(e):
+        return isinstance(e, ast.Call) and isinstance(e.func, ast.Name) and e.func.id == "isinstance" and len(e.args) == 2 and p.resolve_expr(
+            f.module, e.args[1]) == "streamflow.workflow.port.InterWorkflowPort"
+
+    def out_ports(e):  # an expression denoting the workflow ports bound to the failed step's outputs
+        return mentions(f, e, lambda n: isinstance(n, ast.Attribute) and n.attr == "output_ports" and isinstance(n.value, ast.Name) and n.value.id == fstep)
+
+    def port_name(e):
+        return (isinstance(e, ast.Attribute) and e.attr == "name") or isinstance(e, ast.Name)
+
+    for label, lst in (("propagate", prop), ("terminate", term)):
+        if not lst:
+            _blocked(ctx, "R4", f"the {label} rule is installed exactly for the failed step's output ports", f)
+            continue
+        facts = [x for i in g.node_containing(lst[0][0]) for x in path_facts(g, i)]
+        iw = has_fact(facts, is_iw_test, True)
+        mem = membership_fact(facts, port_name, out_ports)
+        ctx.ob("R4", f"the {label} rule is installed exactly for the failed step's output ports (inter-workflow ports)", iw and mem is True, func=f, node=lst[0][0],
+               instance=f"boundary:{label}:where",
+               message=f"the {label} rule is not guarded by `isinstance(port, InterWorkflowPort)` (={iw}) and `port.name in <failed step's output ports>` (={mem})")
+    # every other mapped port forwards its tokens and terminates once all its tags arrived
+    others = []
+    for c, b in rules:
+        e = b.get("boundary_action")
+        outs = [strip(o) for o in origins(f, e)] if e is not None else []
+        both = len(outs) == 1 and isinstance(outs[0], ast.BinOp) and isinstance(outs[0].op, ast.BitOr) and {
+            x.attr for x in (outs[0].left, outs[0].right) if isinstance(x, ast.Attribute)} == {"PROPAGATE", "TERMINATE"}
+        if both:
+            others.append((c, b))
+    oko, msg = False, "no `add_inter_port(port=<the port itself>, boundary_tags=<tags of the port's tokens>, PROPAGATE | TERMINATE)` for the other ports"
+    for c, b in others:
+        facts = [x for i in g.node_containing(c) for x in path_facts(g, i)]
+        self_port = b.get("port") is not None and unparse(strip(b["port"])) == unparse(strip(c.func.value))
+        tags = b.get("boundary_tags")
+        all_tags = tags is not None and mentions(f, tags, lambda n: isinstance(n, ast.Attribute) and n.attr == "port_tokens", depth=1) and mentions(
+            f, tags, lambda n: isinstance(n, ast.Attribute) and n.attr == "tag", depth=1) and not any(
+            isinstance(x, ast.comprehension) and x.ifs for o in origins(f, tags) for x in ast.walk(o))
+        where = has_fact(facts, is_iw_test, True) and membership_fact(facts, port_name, out_ports) is False
+        oko = self_port and all_tags and where
+        msg = f"`{unparse(c)[:90]}`: on the port itself={self_port}, keyed by all tags of the port={all_tags}, only for inter-workflow ports that are not outputs of the failed step={where}"
+    ctx.ob("R4", "every other inter-workflow port forwards and terminates once all of its recorded tags arrived", oko, func=f,
+           node=(others[0][0] if others else f.node), instance="boundary:others", message=msg)
+    # token_list is built from the mapped tokens of the port / the duplicate-tag guard aborts only on duplicates
+    comp_ok = None
+    for n in f.body_nodes():
+        if isinstance(n, ast.comprehension) and any(isinstance(x, ast.Subscript) and isinstance(x.value, ast.Attribute) and x.value.attr == "token_availability"
+                                                     for cond in n.ifs for x in ast.walk(cond)):
+            comp = parent(n)
+            m_ = membership_fact(expr_facts(comp) + [x for a in ancestors(comp) if isinstance(a, ast.Call) for x in expr_facts(a)],
+                                 lambda e: isinstance(e, ast.Name), lambda e: mentions(f, e, lambda k: isinstance(k, ast.Attribute) and k.attr == "port_tokens", depth=0))
+            comp_ok = m_ is not False if comp_ok is None else (comp_ok and m_ is not False)
+    ctx.ob("R4", "mapped ports inject their available tokens (the conditional around the token list is not inverted)", bool(comp_ok), func=f, node=f.node,
+           instance="inject:mapped", message="the token list is built only for ports that are NOT in mapper.port_tokens: nothing is injected")
+    for n in g.nodes.values():
+        if n.kind != "raise_stmt":
+            continue
+        facts = path_facts(g, n.id)
+        dup = None
+        for e, v in facts:
+            if isinstance(e, ast.Compare) and len(e.ops) == 1 and all(
+                    isinstance(strip(x), ast.Call) and isinstance(strip(x).func, ast.Name) and strip(x).func.id == "len" for x in (e.left, e.comparators[0])):
+                dup = (isinstance(e.ops[0], ast.NotEq) and v) or (isinstance(e.ops[0], ast.Eq) and not v)
+        ctx.ob("R4", "_inject_tokens aborts only when a port holds two tokens with one tag", dup is True, func=f, node=n.ast, instance="inject:dup-guard",
+               message="the duplicate-tag guard of _inject_tokens raises when the tags are distinct (or unconditionally): every recovery fails")
 
 
-RULES = [("R1", r1), ("R2", r2), ("R3", r3), ("R4", r4)]
-FLOORS = {"R1": 13, "R2": 14, "R3": 20, "R4": 11}
+# --------------------------------------------------------------------------- R5
+
+
+def r5(ctx):
+    """_populate_workflow: every selected step and the failed step itself are loaded into the recovery
+    workflow, and every plain port is replaced by an inter-workflow port (later recoveries attach to it)."""
+    p = ctx.prog
+    f = p.func(f"{FM}._populate_workflow")
+    g = f.cfg
+    loader = "streamflow.persistence.loading_context.WorkflowBuilder.load_step"
+    loads = [c for c in f.calls() if isinstance(c.func, ast.Attribute) and c.func.attr == "load_step" and resolves_to(p, f, c, [loader, "streamflow.persistence.loading_context.DefaultDatabaseLoadingContext.load_step"])]
+    fstep = param_of_type(p, f, STEP_CLS)
+    ids_param = next((a for a in f.params if a == "step_ids"), None) or (f.params[1] if len(f.params) > 1 else None)
+    ctx.require(fstep is not None and ids_param is not None, "C16.R5: _populate_workflow lost its parameters")
+    all_ids = own = None
+    for c in loads:
+        a0 = c.args[0] if c.args else (c.keywords[0].value if c.keywords else None)
+        if a0 is None:
+            continue
+        if isinstance(strip(a0), ast.Attribute) and strip(a0).attr == "persistent_id" and isinstance(strip(a0).value, ast.Name) and strip(a0).value.id == fstep:
+            own = c
+            continue
+        loop = next((a for a in ancestors(c) if isinstance(a, (ast.GeneratorExp, ast.ListComp, ast.For, ast.AsyncFor))), None)
+        if loop is not None and isinstance(a0, ast.Name):
+            if isinstance(loop, (ast.For, ast.AsyncFor)):
+                it, tg, ifs = loop.iter, loop.target, []
+            else:
+                it, tg, ifs = loop.generators[0].iter, loop.generators[0].target, loop.generators[0].ifs
+            if isinstance(tg, ast.Name) and tg.id == a0.id and not ifs and isinstance(strip(it), ast.Name) and strip(it).id == ids_param:
+                all_ids = c
+    aw = lambda c: c is not None and (is_awaited(c) or any(isinstance(a, ast.Await) for a in ancestors(c)))  # noqa: E731
+    ctx.ob("R5", "every selected step id is loaded into the recovery workflow", all_ids is not None and aw(all_ids) and g.escape(g.entry, g.node_containing(all_ids)) is None,
+           func=f, node=(all_ids or f.node), instance="populate:steps", message="not every element of `step_ids` is passed to workflow_builder.load_step (awaited)")
+    ctx.ob("R5", "the failed step itself is loaded into the recovery workflow", own is not None and aw(own) and g.escape(g.entry, g.node_containing(own)) is None,
+           func=f, node=(own or f.node), instance="populate:failed-step",
+           message="`await workflow_builder.load_step(failed_step.persistent_id)` is missing or conditional: the recovery workflow does not contain the job to re-run")
+    wfp = param_of_type(p, f, f"{CORE_WF}.Workflow")
+    creates = [c for c in f.calls() if isinstance(c.func, ast.Attribute) and c.func.attr == "create_port" and isinstance(c.func.value, ast.Name) and c.func.value.id == wfp]
+    ok = False
+    for c in creates:
+        loop = next((a for a in ancestors(c) if isinstance(a, ast.For)), None)
+        if loop is None or not mentions(f, loop.iter, lambda n: isinstance(n, ast.Attribute) and n.attr == "ports" and isinstance(n.value, ast.Name) and n.value.id == wfp, depth=1):
+            continue
+        b = bind_args(p.func(f"{CORE_WF}.Workflow.create_port").node, c) or {}
+        cls_e, name_e = b.get("cls"), b.get("name")
+        classes = {p.resolve_expr(f.module, x) for x in ast.walk(cls_e) if isinstance(x, (ast.Name, ast.Attribute))} if cls_e is not None else set()
+        same_name = name_e is not None and isinstance(loop.target, ast.Name) and mentions(
+            f, name_e, lambda n: isinstance(n, ast.Attribute) and n.attr == "name" and isinstance(n.value, ast.Name) and n.value.id == loop.target.id, depth=0)
+        # only ports that are not yet connector / inter-workflow ports; job ports stay job ports
+        facts = [x for i in g.node_containing(c) for x in path_facts(g, i)]
+
+        def special(e):
+            if not (isinstance(e, ast.Call) and isinstance(e.func, ast.Name) and e.func.id == "isinstance" and len(e.args) == 2):
+                return False
+            names = {p.resolve_expr(f.module, x) for x in (e.args[1].elts if isinstance(e.args[1], ast.Tuple) else [e.args[1]])}
+            return {"streamflow.workflow.port.InterWorkflowPort", "streamflow.workflow.port.ConnectorPort"} <= names
+
+        plain_only = has_fact(facts, special, False)
+        kind_ok = True
+        cands = [cls_e] if cls_e is not None else []
+        if isinstance(cls_e, ast.Name):
+            cands = [d.value for d in defs_of(f, cls_e.id) if d.value is not None]
+        for o in cands:
+            if isinstance(o, ast.IfExp):
+                jt = [v for e, v in implied(o.test, True) if isinstance(e, ast.Call) and isinstance(e.func, ast.Name) and e.func.id == "isinstance"
+                      and len(e.args) == 2 and p.resolve_expr(f.module, e.args[1]) == "streamflow.workflow.port.JobPort"]
+                body_cls = p.resolve_expr(f.module, o.body) if isinstance(o.body, (ast.Name, ast.Attribute)) else None
+                kind_ok = bool(jt) and ((jt[0] is True) == (body_cls == "streamflow.workflow.port.InterWorkflowJobPort"))
+        ok = ok or ({"streamflow.workflow.port.InterWorkflowPort", "streamflow.workflow.port.InterWorkflowJobPort"} <= classes and same_name and plain_only and kind_ok)
+    ctx.ob("R5", "plain ports of the recovery workflow are replaced by inter-workflow ports of the same name", ok, func=f, node=(creates[0] if creates else f.node),
+           instance="populate:ports", message="ports of the recovery workflow are not re-created as InterWorkflowPort / InterWorkflowJobPort: boundary rules cannot be attached")
+
+
+# --------------------------------------------------------------------------- R6
+
+
+def r6(ctx):
+    """No coroutine of the recovery plumbing is created without being awaited / scheduled."""
+    p = ctx.prog
+    dec, fparam, wrappers, _ = _wrapper(ctx)
+    names = [w.qualname for w in wrappers]
+    for cq, meth, _w in PHASES:
+        for d in p.overrides(cq, meth):
+            names.append(d.qualname)
+            names += sorted({g.qualname for g, _ in callers_of(p, [d.qualname])})
+    names += [f"{RFM}._recover", f"{FM}._inject_tokens", f"{FM}._populate_workflow", f"{RFM}.recover"]
+    for cq in STATEFUL:
+        if "restore" in p.cls(cq).methods:
+            names.append(f"{cq}.restore")
+    seen = []
+    for n in names:
+        if n not in seen:
+            seen.append(n)
+    check_awaited(ctx, "R6", seen)
+    check_defined(ctx, "R6", [n for n in seen if n.startswith((FM, REC))], classes=[RFM])
+
+
+def _blocked(ctx, rule, what, func):
+    ctx.ob(rule, what + " (not evaluated: the construct is missing, see the finding of this rule)", True, func=func, node=func.node, trivial=True)
+
+
+RULES = [("R1", r1), ("R2", r2), ("R3", r3), ("R4", r4), ("R5", r5), ("R6", r6)]
+FLOORS = {"R1": 13, "R2": 16, "R3": 24, "R4": 15, "R5": 3, "R6": 20}
 
 _W = f"{DECORATOR}.<locals>.wrapper"
 _REC = f"{RFM}._recover"
 
+_ON_TOKENS = ("{port.name: [mapper.token_instances[token_id] for token_id in mapper.port_tokens[port.name] if not mapper.token_availability[token_id]] "
+              "for port in step.get_output_ports().values() if port.name in mapper.port_tokens.keys()}")
+
 VARIANTS = [
     # ---- R1
     V("@recoverable removed from _run_transfer", STEP_FILE, f"{STEP}.TransferStep._run_transfer", "@recoverable\nasync def _run_transfer", "async def _run_transfer", "R1", control=True),
-    V("@recoverable removed from _schedule", STEP_FILE, f"{STEP}.ScheduleStep._schedule", "@recoverable\nasync def _schedule", "async def _schedule", "R1"),
     V("@recoverable removed from _do_handle_failure", FM_FILE, f"{RFM}._do_handle_failure", "@recoverable\nasync def", "async def", "R1"),
     V("run loop bypasses the wrapper", STEP_FILE, f"{STEP}.ExecuteStep._run_job", "await self._execute_command(job, connectors)",
       "await self._execute_command.__wrapped__(self, job, connectors)", "R1"),
@@ -659,18 +984,15 @@ VARIANTS = [
       "except (asyncio.CancelledError, KeyboardInterrupt) as e:", "R2"),
     V("decorator returns the bare function", REC_FILE, DECORATOR, "return wrapper", "return func", "R2"),
     V("recover receives (step, job)", REC_FILE, DECORATOR, "recover(job, step, e)", "recover(step, job, e)", "R2"),
-    V("recover not awaited", REC_FILE, DECORATOR, "await step.workflow.context.failure_manager.recover(job, step, e)", "step.workflow.context.failure_manager.recover(job, step, e)", "R2"),
     V("handler narrowed to WorkflowExecutionException", REC_FILE, DECORATOR, "except Exception as e:", "except WorkflowExecutionException as e:", "R2"),
     # ---- R3
     V("save after run", FM_FILE, _REC, "await new_workflow.save(new_workflow.context.database)\n    executor = StreamFlowExecutor(new_workflow)\n    await executor.run()",
       "executor = StreamFlowExecutor(new_workflow)\n    await executor.run()\n    await new_workflow.save(new_workflow.context.database)", "R3", control=True),
     V("executor runs the original workflow", FM_FILE, _REC, "StreamFlowExecutor(new_workflow)", "StreamFlowExecutor(workflow)", "R3"),
-    V("restore loop over the original workflow", FM_FILE, _REC, "for step in new_workflow.steps.values():", "for step in workflow.steps.values():", "R3"),
     V("restore loop removed", FM_FILE, _REC, "for step in new_workflow.steps.values():\n        await step.restore(", "for step in new_workflow.steps.values():\n        logger.debug(", "R3"),
     V("restore only for the first step", FM_FILE, _REC, "if port.name in mapper.port_tokens.keys()})\n", "if port.name in mapper.port_tokens.keys()})\n        break\n", "R3"),
     V("tokens injected before the workflow is populated", FM_FILE, _REC,
       "        await self._synchronize_workflows(", "        await _inject_tokens(failed_job=failed_job, failed_step=failed_step, mapper=mapper, workflow=new_workflow)\n        await self._synchronize_workflows(", "R3"),
-    V("restore after save", FM_FILE, _REC, "    if len(new_workflow.steps) == 0:", "    await new_workflow.save(new_workflow.context.database)\n    if len(new_workflow.steps) == 0:", "R3"),
     # ---- R4
     V("restore receives the available tokens", FM_FILE, _REC, "if not mapper.token_availability[token_id]", "if mapper.token_availability[token_id]", "R4", control=True),
     V("unavailable tokens are injected", FM_FILE, f"{FM}._inject_tokens", "if mapper.token_availability[token_id]]", "]", "R4"),
@@ -682,14 +1004,32 @@ VARIANTS = [
     V("ScatterStep inherits the no-op restore", STEP_FILE, f"{STEP}.ScatterStep", "async def restore(self, on_tokens", "async def _restore_unused(self, on_tokens", "R4"),
     V("LoopCombinator.restore is a no-op", COMB_FILE, "streamflow.workflow.combinator.LoopCombinator.restore",
       "self.iteration_map[prefix] = max(self.iteration_map.get(prefix, iteration_num), iteration_num)", "pass", "R4"),
+    V("provenance search forgets the job's inputs", FM_FILE, _REC, "inputs=[*failed_job.inputs.values(), *(p.token_list[0]", "inputs=[*(p.token_list[0]", "R3"),
+    V("first token of every input port joins the provenance search", FM_FILE, _REC, " if isinstance(p, ConnectorPort))", ")", "R3"),
+    V("recovery aborted for non-empty graphs", FM_FILE, _REC, "if mapper.dag_tokens.empty():", "if not mapper.dag_tokens.empty():", "R3"),
+    V("boundary rules installed on the wrong ports", FM_FILE, f"{FM}._inject_tokens", "if port.name in workflow_output_ports.keys():", "if port.name not in workflow_output_ports.keys():", "R4"),
+    V("inner ports never terminate", FM_FILE, f"{FM}._inject_tokens", "boundary_action=BoundaryAction.PROPAGATE | BoundaryAction.TERMINATE)", "boundary_action=BoundaryAction.PROPAGATE)", "R4"),
+    V("gather of the step loads not awaited", FM_FILE, f"{FM}._populate_workflow", "    await asyncio.gather(", "    asyncio.gather(", "R6"),
+    V("local needed later is dropped", FM_FILE, f"{FM}._inject_tokens", "        port = workflow.ports[port_name]\n", "", "R6"),
+    # ---- R5
+    V("connector ports are re-created instead of plain ports", FM_FILE, f"{FM}._populate_workflow", "if not isinstance(port, (ConnectorPort, InterWorkflowJobPort, InterWorkflowPort)):",
+      "if isinstance(port, (ConnectorPort, InterWorkflowJobPort, InterWorkflowPort)):", "R5"),
+    V("job ports and data ports swapped", FM_FILE, f"{FM}._populate_workflow", "InterWorkflowJobPort if isinstance(port, JobPort) else InterWorkflowPort", "InterWorkflowPort if isinstance(port, JobPort) else InterWorkflowJobPort", "R5"),
+    V("failed step not loaded", FM_FILE, f"{FM}._populate_workflow", "    await workflow_builder.load_step(failed_step.persistent_id)\n", "", "R5"),
+    V("only the first selected step is loaded", FM_FILE, f"{FM}._populate_workflow", "for step_id in step_ids))", "for step_id in list(step_ids)[:1]))", "R5"),
     # ---- benign
+    V("restore through gather", FM_FILE, _REC,
+      "    for step in new_workflow.steps.values():\n        await step.restore(on_tokens=" + _ON_TOKENS + ")",
+      "    await asyncio.gather(*(asyncio.create_task(step.restore(on_tokens=" + _ON_TOKENS + ")) for step in new_workflow.steps.values()))", None),
     V("rename the recovery workflow local", FM_FILE, _REC, "new_workflow", "recovery_wf", None, count=9),
     V("executor built through a temporary", FM_FILE, _REC, "executor = StreamFlowExecutor(new_workflow)", "wf = new_workflow\n    executor = StreamFlowExecutor(wf)", None),
     V("rename the wrapper and add logging", REC_FILE, DECORATOR, "wrapper", "_recovering", None, count=2),
-    V("logging before the wrapped call", REC_FILE, DECORATOR, "try:\n            await func(*args, **kwargs)", "try:\n            logger.debug('phase start')\n            await func(*args, **kwargs)", None),
     V("independent statements reordered in _recover", FM_FILE, _REC,
       "new_workflow = await workflow_builder.load_workflow(workflow.persistent_id)\n    provenance = ProvenanceGraph(workflow.context)",
       "provenance = ProvenanceGraph(workflow.context)\n    new_workflow = await workflow_builder.load_workflow(workflow.persistent_id)", None),
+    V("execution stage extracted into a helper", FM_FILE, f"{RFM}",
+      "        await new_workflow.save(new_workflow.context.database)\n        executor = StreamFlowExecutor(new_workflow)\n        await executor.run()\n",
+      "        await self._execute(new_workflow)\n\n    async def _execute(self, wf: Workflow) -> None:\n        await wf.save(wf.context.database)\n        executor = StreamFlowExecutor(wf)\n        await executor.run()\n", None),
     V("keyword call of the phase", STEP_FILE, f"{STEP}.ExecuteStep._run_job", "await self._execute_command(job, connectors)", "await self._execute_command(job=job, connectors=connectors)", None),
     V("recover called through a local alias of the manager", REC_FILE, DECORATOR, "await step.workflow.context.failure_manager.recover(job, step, e)",
       "fm = step.workflow.context.failure_manager\n                await fm.recover(job=job, step=step, exception=e)", None),
